@@ -22,7 +22,7 @@ ASSUMPTIONS = ["exact rational arithmetic (fractions) for all predicates", "quer
 FLOORS = {'quick': {'ray-status': 1500, 'ray-params': 500, 'is_left': 1500, 'wn_poly': 5000, 'hull': 300, 'voxel-fill': 1500,
                     'voxel-cover': 500, 'find_ctrlpts': 300},
           'thorough': {'ray-status': 15000, 'wn_poly': 50000, 'hull': 3000, 'voxel-fill': 15000}}
-MANDATORY_TAGS = ['ray:cross2d', 'ray:cross3d', 'ray:parallel', 'ray:coincident', 'ray:skew', 'vox:planar-axis-aligned', 'ray:near-parallel', 'ray:generic-cross2d', 'ray:generic-cross3d', 'ray:coords<=1000', 'ray:scale=2^-24', 'ray:scale=2^20', 'poly:star', 'poly:orthogonal',
+MANDATORY_TAGS = ['ray:cross2d', 'ray:cross3d', 'ray:parallel', 'ray:coincident', 'ray:skew', 'vox:planar-axis-aligned', 'ray:near-parallel', 'is_left:near-collinear', 'hull:float-near-collinear', 'ray:generic-cross2d', 'ray:generic-cross3d', 'ray:coords<=1000', 'ray:scale=2^-24', 'ray:scale=2^20', 'poly:star', 'poly:orthogonal',
                   'poly:cw', 'poly:ccw', 'hull:collinear', 'vox:surface', 'vox:volume', 'vox:cubes', 'find:unnormalized']
 TECHNIQUE = ("runtime monitoring: exact-arithmetic oracles (orientation, crossing parity, definitional hull test, exact line "
              "intersection, point-in-box) on every predicate / query call of a constructed-class workload")
@@ -143,6 +143,17 @@ def check_rays(case, ctx):
         ex = ref.orient(a[:2], b[:2], qf)
         if abs(ex) > F(1, 10 ** 6):
             ctx.check((got > 0) == (ex > 0), 'is_left/sign', 'is_left sign wrong for float query %r' % (qf,), what='is_left')
+        # a float query within a few ulps of the line: off the boundary unless exact arithmetic says "on" - the sign must be the exact one
+        af, bf = [rng.uniform(-2, 2), rng.uniform(-2, 2)], [rng.uniform(-2, 2), rng.uniform(-2, 2)]
+        t_ = rng.choice([0.5, 1.5, rng.uniform(-1, 2)])
+        qn = [af[0] + t_ * (bf[0] - af[0]), af[1] + t_ * (bf[1] - af[1])]
+        if rng.random() < 0.5:
+            qn[1] = math.nextafter(qn[1], rng.choice([-10.0, 10.0]))
+        got = linalg.is_left(af, bf, qn)
+        ex = ref.orient(af, bf, qn)
+        ctx.tag('is_left:near-collinear')
+        ctx.check((got > 0) == (ex > 0) and (got < 0) == (ex < 0), 'is_left/sign', 'is_left(%r,%r,%r) = %r, exact orientation has sign %d'
+                  % (af, bf, qn, got, (ex > 0) - (ex < 0)), what='is_left')
 
 
 def check_rays_generic(case, ctx):
@@ -342,8 +353,20 @@ def check_hull(case, ctx):
     rng = random.Random(case['seed'])
     for rep in range(6):
         n = rng.randint(1, 14)
-        cls = rng.choice(['random', 'random', 'collinear-boundary', 'all-collinear', 'duplicates'])
-        if cls == 'all-collinear':
+        cls = rng.choice(['random', 'random', 'collinear-boundary', 'all-collinear', 'duplicates', 'float-near-collinear', 'float-near-collinear'])
+        if cls == 'float-near-collinear':
+            # float points within a few ulps of a common line (tenths, sums of tenths): only exact arithmetic tells which side they are on
+            ax_, ay_, dx_, dy_ = rng.uniform(-1, 1), rng.uniform(-1, 1), rng.uniform(0.2, 1), rng.uniform(-1, 1)
+            pts = []
+            for _k in range(max(n, 4)):
+                t_ = rng.choice([0.1 * rng.randint(-9, 9), rng.uniform(-1, 1)])
+                x_, y_ = ax_ + t_ * dx_, ay_ + t_ * dy_
+                if rng.random() < 0.3:
+                    y_ = math.nextafter(y_, rng.choice([-10.0, 10.0]))
+                pts.append([x_, y_])
+            pts += [[rng.uniform(-1, 1), rng.uniform(-1, 1)] for _ in range(rng.randint(0, 2))]
+            ctx.tag('hull:float-near-collinear')
+        elif cls == 'all-collinear':
             dx, dy = rng.choice([(1, 0), (0, 1), (1, 1), (2, -1)])
             pts = [[k * dx, k * dy] for k in (rng.randint(-4, 4) for _ in range(n))]
         else:
